@@ -65,6 +65,7 @@ let render_call (c : call) : string =
   | COpenDir p -> "open " ^ canon p ^ " R|DIR"
   | CClose -> "close"
   | CRead n -> "read " ^ i_ n
+  | CReadN n -> "read " ^ string_of_n n
   | CWrite n -> "write " ^ i_ n
   | CSendfile (off, n) -> "sendfile off=" ^ i_ off ^ " " ^ i_ n
   | CMkdir p -> "mkdir " ^ canon p
@@ -252,6 +253,11 @@ let drv_world () =
         let n = int_of_string n and b = int_of_string b in
         let content = List.init n (fun i -> Char.chr (Char.code 'a' + (i * 7 + b) mod 26)) in
         setfs (env_put (!w).w_fs (str_tok p) content false)
+    | ["symlink"; p; tg; mt] ->
+        let p = str_tok p in
+        (match fs_symlink p (str_tok tg) (coqz_of_string mt) (mkdirs (!w).w_fs p) with
+         | (None, f) -> setfs f
+         | (Some e, _) -> Printf.printf "env-error symlink %s\n" (errno_text e))
     | ["rm"; p] ->
         (match fs_unlink (str_tok p) (!w).w_fs with
          | (None, f) -> setfs f
